@@ -1215,3 +1215,108 @@ def kmer_default_tables(F, rep, rule="C10.defaults"):
             rep.inconclusive(rule, path, "to_string: %s" % e)
         except Diverge as e:
             rep.violated(rule, path, "to_string diverges: %s" % e)
+
+
+# =========================================================================== C18: overridden consumers of the node k-mer iterator (fold, …)
+
+def node_iter_consumer_table(F, rep, rule="C18.8"):
+    """An `impl Iterator for NodeKmerIter` that overrides a *consuming* provided method (fold, for_each, count, last) takes that method out
+    of the contract the other lemmas establish through next()/nth().  Each override is interpreted (generic MIR) on every iterator state of a
+    small node — cursor 0..N with N = 3 k-mers, K = 3, including the exhausted state — with a recording callback: the k-mers handed out
+    must be exactly those from the cursor to the end, in order."""
+    names = [f["name"] for f in F.adts.get(NKI, {"variants": [{"fields": []}]})["variants"][0]["fields"]]
+    over = {}
+    for k, b in F.fns.items():
+        if k.startswith("<" + NKI) and "std::iter::Iterator>::" in k and "{closure" not in k:
+            m = k.split("::")[-1]
+            if m not in ("next", "nth", "size_hint"):
+                over[m] = b
+    if not over:
+        return
+    if not {"kmer_id", "kmer", "num_kmers", "node_seq_slice"} <= set(names):
+        rep.inconclusive(rule, "NodeKmerIter/consumers", "the iterator overrides %s and its fields are %s: no table for this representation" % (sorted(over), names))
+        return
+    K, N = 3, 3
+
+    class H(Oracles):
+        def __init__(self):
+            Oracles.__init__(self, [])
+            self.items = []
+
+        def on_call(self, it, fn, args, dest_ty, term, caller):
+            path = fn.get("path", "")
+            name = path.split("::")[-1]
+            tr = fn.get("trait", "") or ""
+            if is_print_call(fn):
+                return Opaque(dest_ty, {"fmt"})
+            if name == "k" and tr == "Kmer":
+                return Int(64, False, val=K)
+            if tr in ("Mer", "Vmer") and args and isinstance(recv(it, args[0]), Opaque) and recv(it, args[0]).info.get("seq") == "node":
+                if name == "len":
+                    return Int(64, False, val=N + K - 1)
+                if name == "get":
+                    i = args[1].val if isinstance(args[1], Int) and args[1].is_conc() else None
+                    if i is None or i >= N + K - 1:
+                        raise Diverge("base %r of a node of %d bases" % (args[1], N + K - 1))
+                    return Int(8, False, bits=[TOP] * 8, tags=frozenset({"b:%d" % i}))
+                if name == "get_kmer":
+                    i = args[1].val if isinstance(args[1], Int) and args[1].is_conc() else None
+                    if i is None or i >= N:
+                        raise Diverge("k-mer %r of a node of %d k-mers" % (args[1], N))
+                    return Opaque("K", {"kmer"}, {"at": i})
+            if tr == "Kmer" and name == "extend_right":
+                k = recv(it, args[0])
+                b = [t for t in tags_of(args[1]) if t.startswith("b:")]
+                at = k.info.get("at") if isinstance(k, Opaque) else None
+                if at is not None and b and int(b[0][2:]) == at + K:
+                    return Opaque("K", {"kmer"}, {"at": at + 1})
+                return Opaque("K", {"kmer"}, {"at": None, "bad": "extend_right(k-mer %s, base %s)" % (at, b[0] if b else "?")})
+            if name in ("call", "call_mut", "call_once") and args and isinstance(recv(it, args[0]), Opaque) and "callback" in tags_of(recv(it, args[0])):
+                tup = args[1]
+                vals = list(tup.fields) if isinstance(tup, Tup) else [tup]
+                km = [v for v in vals if isinstance(v, Opaque) and "kmer" in tags_of(v)]
+                self.items.append(km[0].info.get("at") if km else "?")
+                acc = [v for v in vals if isinstance(v, Int)]
+                return Int(64, False, val=(acc[0].val + 1) if acc and acc[0].is_conc() else len(self.items)) if len(vals) == 2 else Tup([])
+            return NotImplemented
+
+    for m, body in sorted(over.items()):
+        key = "NodeKmerIter::%s" % m
+        if m not in ("fold", "for_each", "count", "last"):
+            rep.inconclusive(rule, key, "the iterator overrides Iterator::%s; no table relates it to next()" % m)
+            continue
+        problems, inc = [], []
+        for c in range(0, N + 1):
+            h = H()
+            it = Interp(F, False, h)
+            me = struct_of(F, NKI, {"kmer_id": Int(64, False, val=c), "kmer": Opaque("K", {"kmer"}, {"at": min(c, N - 1) if c < N else N - 1, "stale": c >= N}),
+                                    "num_kmers": Int(64, False, val=N), "node_seq_slice": seq_v("node", "n")})
+            cb = Opaque("F", {"callback"})
+            args = {"fold": [me, Int(64, False, val=0), cb], "for_each": [me, cb], "count": [me], "last": [me]}[m]
+            rep.evaluations += 1
+            try:
+                r = it.call_body(body, args)
+            except (Undecided, Unsupported) as e:
+                inc.append("cursor %d: %s" % (c, e))
+                continue
+            except Diverge as e:
+                problems.append("with the cursor at %d of %d k-mers, %s panics: %s" % (c, N, m, e))
+                continue
+            want = list(range(c, N))
+            if m in ("fold", "for_each"):
+                if h.items != want:
+                    problems.append("with the cursor at %d of %d k-mers%s, %s hands the callback the k-mers %s; the remaining k-mers are %s" % (
+                        c, N, " (exhausted)" if c == N else "", m, h.items, want))
+            elif m == "count":
+                if not (isinstance(r, Int) and r.is_conc() and r.val == len(want)):
+                    problems.append("with the cursor at %d of %d k-mers, count() is %r; %d k-mers remain" % (c, N, r, len(want)))
+            elif m == "last":
+                got = (r.fields[0].info.get("at") if isinstance(r, Adt) and r.variant == 1 and isinstance(r.fields[0], Opaque) else None) if isinstance(r, Adt) else "?"
+                if got != (want[-1] if want else None) or (isinstance(r, Adt) and r.variant == 1 and not want):
+                    problems.append("with the cursor at %d of %d k-mers, last() is k-mer %s; expected %s" % (c, N, got, want[-1] if want else "None"))
+        if problems:
+            rep.violated(rule, key, "NodeKmerIter overrides Iterator::%s: %s" % (m, problems[0]), site=F.site(body, body["line"]), witness={"kind": "row", "count": len(problems)})
+        elif inc:
+            rep.inconclusive(rule, key, "NodeKmerIter overrides Iterator::%s: %s" % (m, inc[0]))
+        else:
+            rep.holds(rule, key, "the overridden %s hands out exactly the k-mers from the cursor to the end of the node, for every cursor 0..%d" % (m, N))
